@@ -95,7 +95,8 @@ def run(f, fixture, rep, cfg, tier):
         "and for each of the three time values reaching the output the min(source_date, value) pattern with branch polarity, "
         "plus the consumer's provenance being the clamped local. Type-resolved from callee receiver types.")
     rep.trusted = ["rustc nightly MIR", "determinism of flate2/zstd/xz/bzip2 and of pgp signing for deterministic key types", "BTreeMap/BTreeSet iterate in key order"]
-    for r, d in (("R1", "no hash-order dependence"), ("R2", "closed list of ambient inputs"), ("R3", "clamp pattern with polarity"), ("R4", "ordered containers")):
+    for r, d in (("R1", "no hash-order dependence"), ("R2", "closed list of ambient inputs"), ("R3", "clamp pattern with polarity"), ("R4", "ordered containers"),
+                 ("R5", "the source date given by the caller is converted exactly (C20's conversion tables)")):
         rep.rule(r, d)
     cone, roots = build_cone(f)
     rep.floor("R1", "bodies on the build cone", len(cone), 60 if cfg != "no-default" else 40)
@@ -196,3 +197,17 @@ def run(f, fixture, rep, cfg, tier):
     types = {fl["name"]: fl["ty"] for fl in adt["variants"][0]["fields"]}
     rep.check(types.get("files", "").startswith("std::collections::BTreeMap<") and types.get("directories", "").startswith("std::collections::BTreeSet<"), "R4", "ordered-maps",
               "files: BTreeMap, directories: BTreeSet", "files/directories are %s / %s" % (types.get("files"), types.get("directories")))
+
+    # ---- R5 the value the clamps compare against is the instant the caller named ---------------------------
+    # source_date() accepts anything TryInto<Timestamp>: a conversion that shifts the instant shifts build time, file times
+    # and signature time with it.  The conversion tables are C20's; any row that fails there fails here.
+    import c20
+    from framework import Report
+    sub = Report("C20", tier)
+    c20.run(f, fixture, sub, cfg, tier)
+    rep.floor("R5", "conversion obligations taken over from C20", len(sub.obligations), 8)
+    for fd in sub.findings:
+        rep.finding("R5", "conversion|%s" % fd["key"].split("|", 1)[1], "source date conversion: %s" % fd["msg"], fd["loc"])
+    for o in sub.obligations:
+        if o["ok"]:
+            rep.ok("R5", "conversion: %s" % o["desc"], o["loc"])
